@@ -87,6 +87,9 @@ class Form:
 def affine_form(b, R, e, writes, row):
     """-> ('decision', s, t) for a 1-row predicate s*x_row <= t, ('leaf', slope, offset) for a dim-row function; raises ValueError"""
     problems = []
+    # every node function lives in the tree's input space: the constructor is called with the generator's `dim`
+    if is_call(e, 'AffFuncBase::unit', 'AffFuncBase::identity', 'AffFuncBase::zero_idx') and e[2] and s(e[2][0]) != ('param', 'dim'):
+        problems.append('a node function is built for dimension %s, not for `dim`' % fmt(e[2][0])[:40])
     if is_call(e, 'AffFuncBase::unit') and e[2][1] == row:
         s_, t_ = Poly.const(1), Poly.const(0)
         for idx, v, field in writes:
@@ -352,6 +355,16 @@ def chains(ctx, F):
         final_inside = 0
         for bb, a, t in adds:
             label, val = a[2], a[3]
+            # the node a branch is attached to is a node of the chain (the root or what an earlier attach returned), never an argument of the
+            # generator used as an index
+            def _direct(e_):
+                while e_[0] == 'cast':
+                    e_ = e_[1]
+                if e_[0] == 'phi':
+                    return any(_direct(y) for y in e_[2])
+                return e_[0] == 'param' and e_[1] != 'self'
+            if _direct(s(a[1])):
+                problems.append('a branch is attached to the node whose index is the argument %s' % fmt(a[1])[:40])
             if label == ('const', 0):
                 n0 += 1
                 if not spec['outside'](val):
